@@ -112,15 +112,17 @@ Theorem C14_surrogate_pairs_onto : forall c, 0x10000 <= c <= 0x10FFFF ->
   is_scalar c = true.
 Proof. exact surrogate_pair_onto. Qed.
 
-(* NOT proved — kept as the goal: the quoted-string scanner computes the
-   grammar's value (quoted_spec: escapes by the translated table, \uHHHH, UTF-16
-   pairs) of the lossy decoding of the input.  The text-block and number value
-   statements are described in notes/C14.md.  All three are covered by K and by
-   the generator-known-value oracle of the check. *)
-Definition C14_goal_quoted_string_value : Prop :=
-  forall len start delim fuel c s c', delim < 128 -> delim <> 92 ->
-    bytes_ok (rest c) -> quoted_loop len fuel start delim c = Ok (s, c') ->
-    quoted_spec (S (length (rest c))) delim (lossy (rest c)) = Some (s, lossy (rest c')).
+(* quoted strings: the scanner computes the grammar's value (quoted_spec on code
+   points: closing delimiter, one-byte escapes by the translated table, \uHHHH,
+   UTF-16 pairs, everything else literally) of the LOSSY DECODING of the input *)
+Theorem C14_quoted_string_value : forall len start delim, delim < 128 -> delim <> 92 ->
+  forall fuel c s c' fs, bytes_ok (rest c) -> quoted_loop len fuel start delim c = Ok (s, c') ->
+  (length (lossy (rest c)) < fs)%nat ->
+  quoted_spec fs delim (lossy (rest c)) = Some (s, lossy (rest c')) /\ bytes_ok (rest c').
+Proof. exact quoted_string_value. Qed.
+
+(* NOT proved (see notes/C14.md): the text-block and number value statements.
+   Covered by K and by the generator-known-value oracle of the check. *)
 
 Example C14_quoted_spec_example :
   quoted_spec 40 39 (bytes_of_string "a\n\u00e9\uD83D\uDE00\'b' x") = Some ([97; 10; 233; 128512; 39; 98], [32; 120]).
@@ -161,5 +163,6 @@ Print Assumptions C14_munch_example.
 Print Assumptions C14_verbatim_string_value.
 Print Assumptions C14_surrogate_pairs.
 Print Assumptions C14_surrogate_pairs_onto.
+Print Assumptions C14_quoted_string_value.
 Print Assumptions C14_quoted_spec_example.
 Print Assumptions C14_nonvacuous.
